@@ -1353,6 +1353,8 @@ class Path:
                 return 1
             if attr == 'real':
                 return as_int(v)
+            if not hasattr(int, attr):
+                raise SymRaise(mk_exc('AttributeError'), f'int.{attr}')
         if isinstance(v, Fraction):
             if attr in ('numerator', 'denominator'):
                 return getattr(v, attr)
